@@ -832,14 +832,14 @@ def guards(fi: FuncInfo, node: ast.AST, *, within: Optional[ast.AST] = None) -> 
 
 # --------------------------------------------------------------------------- local names spelled out
 
-def expand_locals(flow: Flow, expr: ast.AST, depth: int = 4) -> ast.AST:
+def expand_locals(flow: Flow, expr: ast.AST, depth: int = 4, keep: Iterable[str] = ()) -> ast.AST:
     """A copy of `expr` in which every local that has exactly one reaching plain assignment is replaced
     by the expression assigned to it (recursively): `n = set(ds.dims); n.issuperset(x)` reads
     `set(ds.dims).issuperset(x)`.  Comprehension variables, parameters and loop variables stay."""
     import copy
 
     def rec(e: ast.AST, d: int) -> ast.AST:
-        if isinstance(e, ast.Name) and isinstance(e.ctx, ast.Load) and d > 0:
+        if isinstance(e, ast.Name) and isinstance(e.ctx, ast.Load) and d > 0 and e.id not in keep:
             try:
                 df = flow.single_def(e)
             except Exception:
